@@ -2845,7 +2845,9 @@ func (r *Runtime) ForOf(iterable Value, step func(curValue Value) (continueItera
 				continueIteration = step(value)
 			})
 			if ex != nil {
-				iter.returnIter()
+				if ret1 := tryFunc(iter.returnIter); ret1 != nil && !isScriptException(ret1) {
+					panic(ret1)
+				}
 				panic(ex)
 			}
 			if !continueIteration {
